@@ -313,8 +313,10 @@ def rule_d(ctx, ix):
             # attribute as well as in a main or coordinate one)
             from ..util import expand_locals
             msg_p = f.params[1]
+            nested_ = {id(x_) for d_ in ast.walk(f.node) if isinstance(d_, (ast.FunctionDef, ast.Lambda)) and d_ is not f.node
+                       for x_ in ast.walk(d_)}
             inner = [(it2, tg2) for it2, tg2, owner2, kind2 in iterations(f.node)
-                     if (msg_p + '.data') in unparse(expand_locals(f.node, it2)) and owner2 is not lp
+                     if (msg_p + '.data') in unparse(expand_locals(f.node, it2)) and owner2 is not lp and id(owner2) not in nested_
                      and not any(isinstance(x_, (ast.ListComp, ast.GeneratorExp, ast.SetComp, ast.DictComp))
                                  for x_ in ast.walk(expand_locals(f.node, it2)))]
             if len(inner) != 1:
